@@ -39,6 +39,14 @@ impl Naive {
     }
 }
 
+#[cfg(feature = "verif-hooks")]
+impl Naive {
+    /// Verification builds only: engine over the given tables.
+    pub fn verif_with_tables(exp: &'static Exp, log: &'static Log, skew: &'static Skew) -> Self {
+        Self { exp, log, skew }
+    }
+}
+
 impl Engine for Naive {
     fn fft(
         &self,
